@@ -16,7 +16,7 @@ for d in sorted(os.listdir(os.path.join(V, 'seeded'))):
         how.append(c + (' (no-failing-input-found)' if 'no-failing-input-found' in vl else ' (concrete replay)'))
     esc = lambda s: str(s).replace('|', '\\|').replace('\n', ' ')
     rows.append('| %s | %s | %s | %s | %s |' % (d, m.get('property', v.get('property', '')), esc(m.get('summary', ''))[:300],
-                esc(m.get('needs', ''))[:300], (', '.join(how) if how else '**missed** ' + esc(m.get('missed_note', ''))) + ((' — *' + esc(m['stale_note'])[:160] + '*') if m.get('stale_note') else '')))
+                esc(m.get('needs', ''))[:300], (', '.join(how) if how else ('not re-testable on HEAD ' if m.get('stale_note') else '**missed** ') + esc(m.get('missed_note', ''))) + ((' — *' + esc(m['stale_note'])[:160] + '*') if m.get('stale_note') else '')))
 p = os.path.join(V, 'DESIGN.md')
 s = open(p).read()
 head = '| seeded id | property | what it changes | needs | caught by |\n|---|---|---|---|---|\n'
